@@ -15,10 +15,10 @@ use std::process::{Command, Stdio};
 pub fn meta() -> Meta {
     Meta {
         id: "C12",
-        rule: "generated programs (terminating, endless, error-stopping, interrupt-driven; expressed as source text) x cycle budgets {0, 1, 2, around the halting cycle, random} x interrupt/reset multisets (duplicates, cycle 0, the last cycle, beyond the end, both at the same cycle) x machine configurations; library: RunnerConfig::run() must equal (full Machine equality) the harness's own stepping of the statement's loop and report the number of edges issued; RunExpectations::verify over all 8 expectation subsets x matching/mismatching values; CLI: `2a-emulator run ... [verify ...]` with numbers rendered in all three radices: printed Cycles/State/FE/FF and the exit status must follow from the same stepping; unreadable / invalid files and failing verification must exit non-zero, everything else zero. distinct_nontrivial counts distinct (final state, budget class, #interrupts, #resets, halted-early?) classes",
+        rule: "generated programs (terminating, endless, error-stopping, interrupt-driven; expressed as source text) x cycle budgets {0, 1, 2, around the halting cycle, random below 3000, and for endless programs 65 535 .. 131 873 with schedule positions around 65 536} x interrupt/reset multisets (duplicates, cycle 0, the last cycle, beyond the end, both at the same cycle) x machine configurations; library: RunnerConfig::run() must equal (full Machine equality) the harness's own stepping of the statement's loop and report the number of edges issued; RunExpectations::verify over all 8 expectation subsets x matching/mismatching values; CLI: `2a-emulator run ... [verify ...]` with numbers rendered in all three radices: printed Cycles/State/FE/FF and the exit status must follow from the same stepping; unreadable / invalid files and failing verification must exit non-zero, everything else zero. distinct_nontrivial counts distinct (final state, budget class, #interrupts, #resets, halted-early?) classes",
         exhaustive: false,
         assumptions: vec!["interrupt before reset when both are scheduled for the same cycle (order of the statement)", "the program is translated with the real parser/translator (C02/C03 own those)"],
-        floors: vec![("library_runs", 5_000), ("runs_halting_early", 500), ("runs_with_interrupts_taken", 200), ("verify_checks", 40_000), ("cli_runs", 60), ("cli_verify_failures_expected", 10), ("cli_bad_files", 8)],
+        floors: vec![("library_runs", 5_000), ("runs_halting_early", 500), ("runs_with_interrupts_taken", 200), ("verify_checks", 40_000), ("cli_runs", 60), ("cli_verify_failures_expected", 10), ("cli_bad_files", 8), ("runs_with_budget_over_16_bits", 50), ("cli_runs_with_budget_over_16_bits", 5)],
     }
 }
 
@@ -244,6 +244,7 @@ fn gen_case(rng: &mut Rng) -> Case {
         },
     };
     let halt = halting_cycle(&c);
+    let mut deep_budget = false;
     c.budget = match rng.below(8) {
         0 => 0,
         1 => 1,
@@ -254,6 +255,12 @@ fn gen_case(rng: &mut Rng) -> Case {
         },
         _ => rng.usize(3000),
     };
+    // deep budgets around the 16/17-bit boundaries for programs that keep running (a count or a
+    // schedule position kept in a narrower integer shows only there)
+    if halt.is_none() && rng.chance(1, 96) {
+        c.budget = *rng.pick(&[65_535usize, 65_536, 65_537, 70_000, 131_071, 131_073]) + rng.usize(3) * rng.usize(400);
+        deep_budget = true;
+    }
     let span = c.budget.max(halt.unwrap_or(0)) + 3;
     let budget = c.budget;
     let sched = |rng: &mut Rng, n: usize| -> Vec<usize> {
@@ -263,6 +270,7 @@ fn gen_case(rng: &mut Rng) -> Case {
                 1 => span - 1,
                 2 => span + rng.usize(50),
                 3 => budget.saturating_sub(1),
+                4 if deep_budget => 65_533 + rng.usize(6),
                 _ => rng.usize(span),
             })
             .collect()
@@ -334,6 +342,9 @@ fn check_library(c: &Case, rep: &mut Report) -> Option<(String, String)> {
         Err(e) => return Some(("C12:run-rejects-valid-program".into(), format!("{}", e))),
     };
     rep.inc("library_runs");
+    if c.budget >= 65_535 {
+        rep.inc("runs_with_budget_over_16_bits");
+    }
     if res.emulated_cycles != exp_n {
         return Some(("C12:cycle-count".into(), format!("runner reports {} emulated cycles, stepping the documented loop issues {} edges (budget {})", res.emulated_cycles, exp_n, c.budget)));
     }
@@ -598,6 +609,19 @@ pub fn run(ctx: &Ctx) -> Report {
                     let mut w = witness(&c);
                     w.set("cli", J::Bool(true));
                     rep.violate(&sig, what, w);
+                }
+                if c.budget < 65_535 && rng.chance(1, 3) && halting_cycle(&c).is_none() {
+                    let mut d = c.clone();
+                    d.budget = *rng.pick(&[65_535usize, 65_536, 65_537, 70_001, 131_072]);
+                    if let Some(x) = d.interrupts.first_mut() {
+                        *x = 65_534 + rng.usize(4);
+                    }
+                    rep.inc("cli_runs_with_budget_over_16_bits");
+                    if let Some((sig, what)) = check_cli(ctx, &d, &format!("{}-{}d", i, k), &mut rng, rep) {
+                        let mut w = witness(&d);
+                        w.set("cli", J::Bool(true));
+                        rep.violate(&sig, what, w);
+                    }
                 }
             }
             if i == 1 && k == 0 {
